@@ -45,7 +45,7 @@ const (
 	authPass  = "p13"
 	ioTimeout = 20 * time.Second
 	// ResponseHeaderTimeout of the proxy's transport (the "timeout" exchange kind waits for it)
-	headerTimeout = 600 * time.Millisecond
+	headerTimeout = 1200 * time.Millisecond
 	// ConnectTimeout of the proxy (an upstream proxy / SOCKS5 server that never answers is given up after it)
 	connectTimeout = 1500 * time.Millisecond
 )
